@@ -284,6 +284,8 @@ func init() {
 		k := fs.Int("k", 2, "workers")
 		out := fs.String("out", "", "history file")
 		maxp := fs.Int("pairs", 40, "sequential phase: number of pool entries used for ordered pairs")
+		stressN := fs.Int("stress", 0, "N > 0: for every call of the pool, N goroutines released together parse a long statement list made of copies of its input")
+		freeN := fs.Int("freepool", 0, "N > 0: N ungated goroutines each run every call of the pool (rotated), one history per call")
 		fs.Parse(args)
 		var calls []callSpec
 		src := inputSource{infile: *pool}
@@ -301,6 +303,94 @@ func init() {
 		enc := json.NewEncoder(of)
 		enc.SetEscapeHTML(false)
 		n := 0
+		if *stressN > 0 {
+			// stress phase.  The error paths and the digests go through fmt (a sync.Pool: a happens-before edge between
+			// the workers at every use), which orders short calls and hides unsynchronised accesses from the race
+			// detector.  Here the workers spend a long stretch inside one call without any such edge: a list of many
+			// copies of the input, started together; round 1 all workers on the same input, round 2 on neighbours.
+			long := make([]string, len(calls))
+			for k, c := range calls {
+				var unit string
+				switch c.Entry {
+				case "ParseExpr":
+					unit = "SELECT " + c.Input + "\n;\n"
+				case "ParseType":
+					unit = "SELECT CAST(NULL AS " + c.Input + "\n)\n;\n"
+				default:
+					unit = c.Input + "\n;\n"
+				}
+				reps := 1 + 12000/len(unit)
+				if reps > 300 {
+					reps = 300
+				}
+				long[k] = strings.Repeat(unit, reps)
+			}
+			for round := 0; round < 2; round++ {
+				for k := range calls {
+					var wg sync.WaitGroup
+					start := make(chan struct{})
+					res := make([]pureCall, *stressN)
+					for w := 0; w < *stressN; w++ {
+						wg.Add(1)
+						go func(w int) {
+							defer wg.Done()
+							in := long[(k+w*round)%len(calls)]
+							<-start
+							ns, err := runCall(callSpec{"ParseStatements", in})
+							res[w] = pureCall{Args: sha(in), Res: resultDigest(ns, err), Entry: "ParseStatements", Input: in[:min(len(in), 200)]}
+						}(w)
+					}
+					close(start)
+					wg.Wait()
+					if err := enc.Encode(pureHist{Kind: "stress", Sched: []int{}, Calls: res}); err != nil {
+						return err
+					}
+					n++
+				}
+			}
+			fmt.Printf("{\"histories\": %d}\n", n)
+			return nil
+		}
+		if *freeN > 0 {
+			// whole-pool phase: no synchronisation between the workers from the start barrier to the end, so that the
+			// race detector sees every pair of accesses to package-level state that any two calls of the pool make;
+			// each call is made once by every worker: its N results form one history
+			res := make([][]string, *freeN)
+			var wg sync.WaitGroup
+			start := make(chan struct{})
+			for w := 0; w < *freeN; w++ {
+				res[w] = make([]string, len(calls))
+				wg.Add(1)
+				go func(w int) {
+					defer wg.Done()
+					<-start
+					off := w * len(calls) / *freeN
+					for i := range calls {
+						k := (i + off) % len(calls)
+						if w%2 == 1 {
+							k = (len(calls) - 1 - i + off) % len(calls)
+						}
+						ns, err := runCall(calls[k])
+						res[w][k] = resultDigest(ns, err)
+					}
+				}(w)
+			}
+			close(start)
+			wg.Wait()
+			for k, c := range calls {
+				h := pureHist{Kind: "pool", Sched: []int{}}
+				a := sha(c.Entry + "\x00" + c.Input)
+				for w := 0; w < *freeN; w++ {
+					h.Calls = append(h.Calls, pureCall{Args: a, Res: res[w][k], Entry: c.Entry, Input: c.Input})
+				}
+				if err := enc.Encode(h); err != nil {
+					return err
+				}
+				n++
+			}
+			fmt.Printf("{\"histories\": %d}\n", n)
+			return nil
+		}
 		if *scheds == "" {
 			// sequential phase: a baseline pass, then ordered pairs and repeats in the same process.  Every
 			// later call is written as a two-call history [first result for these arguments, this result],
@@ -406,4 +496,3 @@ func init() {
 		return nil
 	})
 }
-
